@@ -735,7 +735,7 @@ func runCqlStreams(o *hx.Opts, res *hx.Result, r *hx.Rand) {
 
 	// ---- text ------------------------------------------------------------------------------------------
 	rt := r.Fork("text")
-	nText := o.Count(700, 30000)
+	nText := o.Count(700, 12000)
 	for i := 0; i < nText; i++ {
 		text := genText(rt)
 		if !utf8.ValidString(text) {
@@ -756,7 +756,7 @@ func runCqlStreams(o *hx.Opts, res *hx.Result, r *hx.Rand) {
 
 	// ---- tree ------------------------------------------------------------------------------------------
 	rtr := r.Fork("tree")
-	nTree := o.Count(500, 20000)
+	nTree := o.Count(500, 8000)
 	for i := 0; i < nTree; i++ {
 		redact := i%4 == 3
 		w := newWorld(redact)
@@ -796,7 +796,7 @@ func runCqlStreams(o *hx.Opts, res *hx.Result, r *hx.Rand) {
 
 	// ---- inject ----------------------------------------------------------------------------------------
 	ri := r.Fork("inject")
-	nInj := o.Count(400, 20000)
+	nInj := o.Count(400, 8000)
 	for i := 0; i < nInj; i++ {
 		redact := i%3 == 2
 		w := newWorld(redact)
